@@ -26,6 +26,8 @@ def demo_cmds(run_txt):
         line = line[m.start():].strip() if not line.startswith(("GOFLAGS", "go test", "export")) else line
         line = re.sub(r"^(export\s+)?((GOFLAGS|GOPROXY)=\S+\s+)+", "", line)
         if line.startswith("go test"):
+            # keep the test command only (RUN.txt lines often continue with "; rm ..." clean-up or a trailing backslash)
+            line = re.split(r"\s*(;|&&|\\$)", line)[0].strip()
             cmds.append(line)
     return cmds
 
@@ -97,6 +99,7 @@ def main():
         meta["detected_by"] = [c for c, r in results.items() if r["exit"] == 1 and any(l.startswith("VIOLATION property=") for l in r["lines"])]
         # demo without the change
         for rel in demo_files:
+            os.makedirs(os.path.dirname(os.path.join(wt, rel)) or wt, exist_ok=True)
             shutil.copy(os.path.join(dest, "demo", rel), os.path.join(wt, rel))
         sh(f"git apply -R {dest}/patch.diff", cwd=wt)
         rc, log = run_demo()
